@@ -10,7 +10,9 @@
 //	pair    all ordered pairs of a boundary id set: integer order == (kind, ref, version) order
 //	sort    Elements.Sort / ElementIDs.Sort / FeatureIDs.Sort on every ordered selection
 //	        of k ids from a pool, on lists with repeats, and on long strided lists
-//	parse   every string of <= 5 tokens of a small alphabet through the three parsers
+//	list    the id helpers of collections on every sequence of <= 3 pool ids and on long lists
+//	parse   every string of <= 5 tokens of a small alphabet through the three parsers, plus
+//	        structured texts (kind/numeral[:numeral], three fields, affixes, odd separators)
 package main
 
 import (
@@ -30,11 +32,11 @@ func (t Triple) String() string { return fmt.Sprintf("%s/%d:%d", t.Kind, t.Ref, 
 
 // Case is the replay format: exactly one failing case of one family.
 type Case struct {
-	Family string   `json:"family"`            // triple | pair | sort | parse
-	IDType string   `json:"id_type,omitempty"` // object | element | feature (pair, sort: elements|elementids|featureids)
+	Family string   `json:"family"`            // triple | pair | sort | list | parse
+	IDType string   `json:"id_type,omitempty"` // object | element | feature (pair, sort: elements|elementids|featureids, list: helper name)
 	T      *Triple  `json:"t,omitempty"`       // triple; pair: first
 	U      *Triple  `json:"u,omitempty"`       // pair: second
-	List   []Triple `json:"list,omitempty"`    // sort
+	List   []Triple `json:"list,omitempty"`    // sort, list
 	Parser string   `json:"parser,omitempty"`  // parse
 	Text   string   `json:"text,omitempty"`    // parse
 }
@@ -109,6 +111,41 @@ func fullVers() []int64 {
 	return sortInts(s)
 }
 
+// decimal-width boundaries of the textual form: 10^k-1, 10^k, 10^k+1 below limit
+func decimalEdges(limit int64) []int64 {
+	var s []int64
+	for p := int64(10); p-1 < limit; p *= 10 {
+		s = addU(s, p-1, limit)
+		s = addU(s, p, limit)
+		s = addU(s, p+1, limit)
+	}
+	return s
+}
+
+// tripleRefs / tripleVers: the sets of the triple family = the bit-boundary sets
+// plus the decimal-width boundaries (the width of the printed number changes
+// there; 10^12 is the last one below 2^40, 10^4 below 2^16) and 2^k+1 for
+// versions. The pair family keeps the bit-boundary sets: integer order does not
+// depend on the decimal form.
+func tripleRefs() []int64 {
+	s := fullRefs()
+	for _, v := range decimalEdges(refLimit) {
+		s = addU(s, v, refLimit)
+	}
+	return sortInts(s)
+}
+
+func tripleVers() []int64 {
+	s := fullVers()
+	for k := 1; k <= 15; k++ {
+		s = addU(s, int64(1)<<uint(k)+1, verLimit)
+	}
+	for _, v := range decimalEdges(verLimit) {
+		s = addU(s, v, verLimit)
+	}
+	return sortInts(s)
+}
+
 // reduced sets for the pair family (every byte boundary, both ends, bit 39/15)
 func reducedRefs() []int64 {
 	s := []int64{}
@@ -162,9 +199,10 @@ func triplesOver(refs, vers []int64, kinds []string) []Triple {
 
 func main() {
 	kit.Main("C10", "exploration", func(r *kit.Run) {
-		r.Rule("four exhaustive families. triple: every constructible (kind, ref, version) with ref/version from the bit-boundary sets (2^k-1, 2^k, 2^k+1, ends, alternating bits), non-trivial when ref>=2 or version>=2, distinct by triple. pair: every ordered pair of the boundary id set per id type; fingerprint = comparison shape (id type, kinds, deciding component, highest differing bit of it, whether lower components point the other way), non-trivial when the ids differ. sort: every ordered selection of k ids from a pool, every length-4 sequence with repeats from 5 ids, long strided lists; non-trivial when the input is not already sorted; distinct by (sort, list). parse: every concatenation of <=5 tokens x 3 parsers; non-trivial when the text has exactly one '/' and a known kind or a well-formed remainder; distinct by (parser, text).")
+		r.Rule("five exhaustive families. triple: every constructible (kind, ref, version) with ref/version from the bit-boundary sets (2^k-1, 2^k, 2^k+1, ends, alternating bits) and the decimal-width boundaries (10^k-1, 10^k, 10^k+1), plus every version in [0, 2^16) on a few refs per element kind; non-trivial when ref>=2 or version>=2, distinct by triple. pair: every ordered pair of the boundary id set per id type; fingerprint = comparison shape (id type, kinds, deciding component, highest differing bit of it, whether lower components point the other way), non-trivial when the ids differ. sort: every ordered selection of k ids from a pool, every length-4 sequence with repeats from 5 ids, long strided lists; non-trivial when the input is not already sorted; distinct by (sort, list). list: every id helper of a collection on every sequence (with repeats) of <= 3 pool ids and on long lists; non-trivial when the list has two or more entries; distinct by (helper, list). parse: every concatenation of <=5 tokens x 3 parsers plus the structured texts; non-trivial when the text has exactly one '/' and a known kind or a well-formed remainder; distinct by (parser, text).")
 		r.Assume("kinds other than node<way<relation: the property fixes no rank; their rank is taken from the library's own (kind,0,0) ids and only consistency (kind blocks do not interleave, order inside a block is (ref, version)) is required")
 		r.Assume("text classes the property does not pin down are skipped and counted: signed numbers, ref >= 2^40, version > 65535, a version on changeset/note/user/bounds, a non-zero ref on bounds, non-element kinds given to ParseElementID/ParseFeatureID, a version part given to ParseFeatureID")
+		r.Assume("the order in which *OSM groups its ids by kind is not fixed by the property: results of OSM.ElementIDs / FeatureIDs / Objects are compared as multisets")
 		r.Assume("text with the kind/ref[:version] shape that is not the canonical String() output (leading zeros, ':0', missing version) may be rejected or accepted, but if accepted must give the denoted id")
 		if r.ReplayPath != "" {
 			var c Case
@@ -176,6 +214,7 @@ func main() {
 		runTriples(r, thorough)
 		runPairs(r, thorough)
 		runSorts(r, thorough)
+		runLists(r, thorough)
 		runParse(r, thorough)
 	})
 }
@@ -193,6 +232,8 @@ func replay(r *kit.Run, c Case) {
 		checkPair(r, c.IDType, *c.T, *c.U, kindRanks(r), nil)
 	case "sort":
 		checkSort(r, c.IDType, c.List)
+	case "list":
+		checkList(r, c.IDType, c.List)
 	case "parse":
 		checkParse(r, c.Parser, c.Text)
 	default:
